@@ -168,33 +168,33 @@ theorem C03_restart_complete (k : Nat) (mk : Nat → Bool) (log : List Entry) (c
 /-- D12: with `SetPts` before the callback (the pre-repair order), the store of 11 happens while
 message 1 at position 11 is undelivered and nothing has been reported. -/
 theorem D12_store_before_callback_counterexample :
-    safe [⟨1, .msg, 0, 11, 1⟩] (fun _ => false) 10 [] false (callEvs 11 [] [.store, .setBox, .cb]) = false := by decide
+    safe [⟨1, .msg, 0, 11, 1, 0⟩] (fun _ => false) 10 [] false (callEvs 11 [] [.store, .setBox, .cb]) = false := by decide
 
 /-- D11: with own-sequence other-updates re-routed through the gap check (pre-repair), local pts
 10, a difference carrying message 1 @11 and delete 2 @12: the delete is parked, the state is set to
 12, and the store of 12 covers the undelivered delete. -/
 theorem D11_rerouted_other_update_counterexample :
-    let log : List Entry := [⟨1, .msg, 0, 11, 1⟩, ⟨2, .other, 0, 12, 1⟩]
+    let log : List Entry := [⟨1, .msg, 0, 11, 1, 0⟩, ⟨2, .other, 0, 12, 1, 0⟩]
     safe log (fun _ => false) 10 [] false
       (srun ⟨[.dispatch, .store], false, fun _ => false⟩ { state := 10 }
-        [.clear, .push ⟨2, .other, 0, 12, 1⟩, .seq diffShape 12 [⟨1, .msg, 0, 11, 1⟩]]).2 = false := by decide
+        [.clear, .push ⟨2, .other, 0, 12, 1, 0⟩, .seq diffShape 12 [⟨1, .msg, 0, 11, 1, 0⟩]]).2 = false := by decide
 
 /-- With `break` instead of `continue` in the marker skip: channel at 5, affected result 1 covering
 position 6 is overtaken by messages 2 @7 and 3 @8; when it arrives the batch is [marker, 2, 3],
 nothing is dispatched, and 8 is persisted. -/
 theorem marker_break_counterexample :
-    let log : List Entry := [⟨1, .chaff, 5, 6, 1⟩, ⟨2, .chmsg, 5, 7, 1⟩, ⟨3, .chmsg, 5, 8, 1⟩]
+    let log : List Entry := [⟨1, .chaff, 5, 6, 1, 0⟩, ⟨2, .chmsg, 5, 7, 1, 0⟩, ⟨3, .chmsg, 5, 8, 1, 0⟩]
     (srun ⟨[.dispatch, .store], true, fun i => i == 1⟩ { state := 5 }
-        [.push ⟨2, .chmsg, 5, 7, 1⟩, .push ⟨3, .chmsg, 5, 8, 1⟩, .push ⟨1, .chaff, 5, 6, 1⟩]).2 = [.store 8] ∧
+        [.push ⟨2, .chmsg, 5, 7, 1, 0⟩, .push ⟨3, .chmsg, 5, 8, 1, 0⟩, .push ⟨1, .chaff, 5, 6, 1, 0⟩]).2 = [.store 8] ∧
     safe log (fun i => i == 1) 5 [] false [.store 8] = false := by decide
 
 /-! ### Non-vacuity -/
 
 /-- A well-formed run with a gap filled late, a duplicate and a final difference. -/
-def exLog : List Entry := [⟨1, .msg, 0, 11, 1⟩, ⟨2, .other, 0, 13, 2⟩, ⟨3, .msg, 0, 14, 1⟩, ⟨4, .msg, 0, 15, 1⟩]
+def exLog : List Entry := [⟨1, .msg, 0, 11, 1, 0⟩, ⟨2, .other, 0, 13, 2, 0⟩, ⟨3, .msg, 0, 14, 1, 0⟩, ⟨4, .msg, 0, 15, 1, 0⟩]
 def exOps : List SOp :=
-  [.push ⟨2, .other, 0, 13, 2⟩, .push ⟨1, .msg, 0, 11, 1⟩, .push ⟨1, .msg, 0, 11, 1⟩, .clear,
-   .seq diffShape 15 [⟨3, .msg, 0, 14, 1⟩, ⟨4, .msg, 0, 15, 1⟩]]
+  [.push ⟨2, .other, 0, 13, 2, 0⟩, .push ⟨1, .msg, 0, 11, 1, 0⟩, .push ⟨1, .msg, 0, 11, 1, 0⟩, .clear,
+   .seq diffShape 15 [⟨3, .msg, 0, 14, 1, 0⟩, ⟨4, .msg, 0, 15, 1, 0⟩]]
 
 example : tiled 10 exLog = true := by decide
 def exCfg : ACfg := ⟨[.dispatch, .store], false, fun _ => false⟩
@@ -205,7 +205,7 @@ example : (srun exCfg { state := 10 } exOps).2 =
 /-- With a marker: affected result 1 covers (10,12], message 2 @13 overtakes it; the marker closes
 the hole and only the message is dispatched, then 13 is persisted. -/
 example : (srun ⟨[.dispatch, .store], false, fun i => i == 1⟩ { state := 10 }
-    [.push ⟨2, .msg, 0, 13, 1⟩, .push ⟨1, .aff, 0, 12, 2⟩]).2 = [.dispatch [2], .store 13] := by decide
+    [.push ⟨2, .msg, 0, 13, 1, 0⟩, .push ⟨1, .aff, 0, 12, 2, 0⟩]).2 = [.dispatch [2], .store 13] := by decide
 
 /-! ### The whole manager model on the D12 history -/
 
@@ -216,7 +216,7 @@ def preRepairTooLong : Orders :=
 
 /-- Stored pts 10; `msg 1 @11` happens offline; the next difference answers `differenceTooLong`. -/
 def tooLongHistory (O : Orders) : List Event :=
-  ((Mgr.start O { log := [⟨1, .msg, 0, 11, 1⟩], p0 := 10, q0 := 0, c0 := [] } 10 0 []).runActions O
+  ((Mgr.start O { log := [⟨1, .msg, 0, 11, 1, 0⟩], p0 := 10, q0 := 0, c0 := [] } 10 0 []).runActions O
     [.emit 1, .tlNext, .tooLong]).trace
 
 /-- Manager model, pre-repair order: `SetPts(11)` is in the trace before the callback. -/
